@@ -1,4 +1,4 @@
-import TarsModel.Proofs.HealthFrame
+import TarsModel.Proofs.HealthProbe
 
 /-!
 # C15 — Failover: failing endpoints leave rotation, are probed, and come back
@@ -189,6 +189,50 @@ theorem C15_probe_rate_calls_repaired : C15_probe_rate_calls_full true := by
   simp only [T] at this
   omega
 
+/-! ## probing keeps happening -/
+
+/-- **a blocked endpoint is probed again**: if `ep` is blocked, can be connected to, and
+`tryTimeInterval` seconds have passed since its `lastBlockTime` (= the time it was blocked, the last
+time a probe was attempted for it and, with the repair, the time its last probe call was handed
+out), then the next `checkStatus` puts it into the probe queue (unless it is waiting there already).
+There is no other condition: in particular no "probe pending" marker survives a failed probe. -/
+theorem C15_probe_due (stamp : Bool) (reg : List Nat) (now0 : Int) (h : List Action) (conn : List Nat) (ep : Nat)
+    (hb : ((after stamp reg now0 h).recs ep).status = false) (hconn : conn.contains ep = true)
+    (hdue : (Consts.healthTryTimeInterval : Int) ≤ (after stamp reg now0 h).now - ((after stamp reg now0 h).recs ep).lastBlockTime) :
+    ep ∈ (step (after stamp reg now0 h) (.checkStatus conn)).queue :=
+  checkStatus_queues conn (run_invA (init_invA stamp reg now0) h) (run_invT (init_invT stamp reg now0) h) ep hb hconn hdue
+
+/-- **probe liveness, from any reachable state**: whatever happened before (any number of failed
+probes included), once `tryTimeInterval` more seconds have passed, a status check during which the
+blocked endpoint can be connected to queues it as probe candidate. -/
+theorem C15_probe_liveness (stamp : Bool) (reg : List Nat) (now0 : Int) (h : List Action) (conn : List Nat) (ep : Nat)
+    (d : Nat) (hb : ((after stamp reg now0 h).recs ep).status = false) (hconn : conn.contains ep = true)
+    (hd : Consts.healthTryTimeInterval ≤ d) :
+    ep ∈ (step (step (after stamp reg now0 h) (.advance d)) (.checkStatus conn)).queue := by
+  have hA : InvA (step (after stamp reg now0 h) (.advance d)) := step_invA (run_invA (init_invA stamp reg now0) h) _
+  have hT : InvT (step (after stamp reg now0 h) (.advance d)) := step_invT (run_invT (init_invT stamp reg now0) h) _
+  have hlb : ((after stamp reg now0 h).recs ep).lastBlockTime ≤ (after stamp reg now0 h).now :=
+    ((run_invT (init_invT stamp reg now0) h).c ep).lb hb
+  have hd' : (Consts.healthTryTimeInterval : Int) ≤ (d : Int) := by exact_mod_cast hd
+  refine checkStatus_queues conn hA hT ep hb hconn ?_
+  show (Consts.healthTryTimeInterval : Int) ≤ ((after stamp reg now0 h).now + (d : Int)) - ((after stamp reg now0 h).recs ep).lastBlockTime
+  omega
+
+/-- **the queued candidate is probed by the next call**: a call always takes the head of the probe
+queue (first in, first out, one candidate per call; every other action leaves the queue alone or
+appends to it), so an endpoint queued behind `k` others is probed by the `k+1`-th next call. -/
+theorem C15_probe_consumed (stamp : Bool) (reg : List Nat) (now0 : Int) (h : List Action) (hreg : reg ≠ [])
+    (choice : Nat) (sendOk oneway : Bool) (x : Nat) (q : List Nat) (hq : (after stamp reg now0 h).queue = x :: q) :
+    Event.picked x true (after stamp reg now0 h).now ∈ (step (after stamp reg now0 h) (.start choice sendOk oneway)).log ∧
+    (step (after stamp reg now0 h) (.start choice sendOk oneway)).queue = q := by
+  have hr : (after stamp reg now0 h).reg ≠ [] := by rw [show (after stamp reg now0 h).reg = reg from run_reg _ h]; exact hreg
+  obtain ⟨ep, p, hm, _, h2⟩ := start_picks (after stamp reg now0 h) choice sendOk oneway hr
+  obtain ⟨he, hp⟩ := h2 x q hq
+  subst he; subst hp
+  refine ⟨hm, ?_⟩
+  show (start _ choice sendOk oneway).queue = q
+  rw [start_queue _ _ _ _ hr, hq]; rfl
+
 /-! ## coming back -/
 
 /-- **returns to rotation as soon as a probe succeeds**: completing an open probe call on `ep`
@@ -303,6 +347,17 @@ call (hypothesis of `C15_reinstate`: an open probe call), and the successful pro
 example : (after false [0, 1] 100 exProbe).inflight = [(0, true)] ∧ (after false [0, 1] 100 exProbe).sel = [1] ∧
     (after false [0, 1] 100 exProbe).log.head? = some (.picked 0 true (101 + Consts.healthTryTimeInterval)) ∧
     (step (after false [0, 1] 100 exProbe) (.finish 0 true)).sel = [1, 0] := by decide
+
+/-- k failed probes in a row do not stop the probing: endpoint 0 is blocked, probed (fails), 31 s
+later queued and probed again (fails), 31 s later queued again (hypotheses of `C15_probe_due` /
+`C15_probe_liveness` hold after a failed probe) -/
+def exReprobe : List Action :=
+  exProbe ++ [.finish 0 false, .advance (Consts.healthTryTimeInterval + 1), .checkStatus [0], .start 3 true false,
+              .finish 0 false, .advance (Consts.healthTryTimeInterval + 1)]
+
+example : ((after false [0, 1] 100 exReprobe).recs 0).status = false ∧ (after false [0, 1] 100 exReprobe).queue = [] ∧
+    probes (after false [0, 1] 100 exReprobe).log 0 = 2 ∧
+    (step (after false [0, 1] 100 exReprobe) (.checkStatus [0])).queue = [0] := by decide
 
 /-- every endpoint blocked: the call still goes to a registered endpoint -/
 example : (after false [0] 100 exBlock).sel = [] ∧
